@@ -483,7 +483,7 @@ def finish(prop, tier, seed, t0, scratch, summaries, hs_summ, viols, herr, W, n_
         "coverage": cov,
         "assumptions": [
             "sampled schedules/histories/restart points: a clean batch is evidence, not proof",
-            "pre-emption points are CPython sys.settrace line/opcode events in openskill frames; sequential consistency between them; stdlib calls atomic",
+            "pre-emption points are CPython sys.monitoring (PEP 669) LINE/INSTRUCTION events in openskill code objects; sequential consistency between them; stdlib calls atomic",
             "oracles compare the real code with the real code under different circumstances: blind to a result that is wrong identically in every circumstance",
             "valid domain D of DESIGN.md 3.1 (Thurstone-Mosteller: kappa/(sqrt2*beta) <= 1e-2)",
         ],
